@@ -258,6 +258,11 @@ pub fn gen_bw_chrom(r: &mut Rng, size: u32, cfg: &LayoutCfg) -> Vec<Value> {
         let e = size.min(5).max(1);
         out.push(Value { start: 0, end: e, value: gen_value(r, cfg.exact_values) });
     }
+    // a zero-length value sitting exactly on the chromosome end
+    if cfg.allow_zero_len && r.chance(1, 10) && out.last().map(|v| v.end <= size).unwrap_or(true) {
+        out.push(Value { start: size, end: size, value: gen_value(r, cfg.exact_values) });
+        return out;
+    }
     // last value touching the chromosome end sometimes
     if r.chance(1, 10) {
         let last_end = out.last().unwrap().end;
